@@ -118,6 +118,7 @@ type FnCtx struct {
 	hiddenNames map[string]bool
 	callOrd map[*ast.CallExpr]int
 	stmtAssertHit map[*Clause]bool
+	stmtOrd       map[ast.Stmt]int
 	globalFacts []string
 	pendingPanics []*State
 	hasRecover bool
